@@ -79,7 +79,12 @@ impl Context {
 			}
 			heap.push((conf, k));
 		});
-		heap.sort_by(|a, b| b.0.partial_cmp(&a.0).unwrap_or(Ordering::Equal));
+		// Bindings are enumerated in hash order, break similarity ties by name to keep the message deterministic
+		heap.sort_by(|a, b| {
+			b.0.partial_cmp(&a.0)
+				.unwrap_or(Ordering::Equal)
+				.then_with(|| a.1.cmp(&b.1))
+		});
 
 		bail!(VariableIsNotDefined(
 			name,
